@@ -116,8 +116,12 @@ def parseOp (c : Case) : Sexp → Option (C05Cache.Op × Post)
   | .list [.atom "evalcur", d, v] => do some (.base (.evalCur (← d.toNat?) (viewOf c (← v.toNat?))), .plain)
   | .list [.atom "usecur"] => some (.base .useCur, .plain)
   | .list [.atom "child", a, i] => do some (.base (.child (← a.toNat?) (← i.toNat?)), .plain)
-  | .list [.atom "setattr", a, ct] => do some (.setAttr (← a.toNat?) (← ct.toNat?), .plain)
-  | .list [.atom "editparam", a, ct] => do some (.editParam (← a.toNat?) (← ct.toNat?), .plain)
+  | .list [.atom "setattr", a, ct] => do
+    let n ← ct.toNat?
+    some (.setAttr (← a.toNat?) (← c.kinds[n]?) n, .plain)
+  | .list [.atom "editparam", a, ct] => do
+    let n ← ct.toNat?
+    some (.editParam (← a.toNat?) (← c.kinds[n]?) n, .plain)
   | .list [.atom "datamut", .atom m, d] => do some (.dataMut (← dataMutOf? m) (← d.toNat?), .plain)
   -- `data.compute_statistic('sum', cid, subset_state=a)` calls `a.to_mask(data, None)` (positional)
   | .list [.atom "stat", a, d] => do
